@@ -640,6 +640,14 @@ fn walk_dir(
         if e.is_label() || e.is_dot() {
             continue;
         }
+        if t.nodes.len() >= 5000 {
+            // no tree the harness builds or the library can produce within a bounded history comes near this; a medium
+            // that exposes garbage as directories can describe millions of pseudo-entries
+            if !t.problems.iter().any(|p| p.kind == "walk/more-than-5000-entries") {
+                prob(t, "walk/more-than-5000-entries", disp.clone());
+            }
+            return;
+        }
         let p = format!("{}/{}", path, e.name_str());
         let is_dir = e.is_dir();
         let (ch, err) = if e.cluster == 0 && !is_dir {
@@ -689,7 +697,9 @@ fn walk_dir(
             chain_err: err.clone(),
             is_dir,
         });
-        if is_dir && v.in_range(e.cluster) {
+        // (an exposed stale-pattern slot is reported above; what it "points to" is more of the same pattern, and following
+        // it would walk millions of pseudo-directories)
+        if is_dir && v.in_range(e.cluster) && !crate::simdisk::looks_stale_entry(&e.raw) {
             walk_dir(img, v, fat, t, DirLoc::Chain(e.cluster), p, Some(idx), loc, depth + 1, visited);
         }
     }
